@@ -7,7 +7,7 @@ import time
 import warnings
 from typing import Any
 
-from .. import semfam, semgen, semlean, semrun
+from .. import semfam, semfam2, semgen, semlean, semrun
 from ..common import hx, unhx
 from ..runner import Check
 from ..translate import constraints as tconstraints
@@ -373,7 +373,10 @@ def diff_cause(d: semrun.Diff) -> str:
     if d.keyword in semgen.BOUND_KEYS and leaf.get("type") == "integer":
         v = leaf.get(d.keyword)
         if isinstance(v, float) and v != int(v):
-            return "nonintegral_bound_on_integer"
+            # D10, precisely: the reported bound is the TRUNCATED one, int(v) (any other reported value — a bound moved
+            # the other way, or none at all — is not this finding)
+            if d.keyword == "multipleOf" or (isinstance(d.got, (int, float)) and not isinstance(d.got, bool) and d.got == int(v)):
+                return "nonintegral_bound_on_integer"
     if leaf.get("k") == "object" and leaf.get("type_list_null") and not leaf.get("props") and isinstance(leaf.get("ap"), dict) and d.location == "ap_value":
         return "nullable_map_value"  # the map object itself is the leaf: its value schema is not reported at all
     if d.keyword == "required":
@@ -410,6 +413,9 @@ def _union_sibling_requires_const(doc: Any, name: str) -> bool:
 
 
 def mutation_cause(doc: dict, m: semgen.Mutation) -> str:
+    if m.cause == "nonintegral_bound_on_integer" and m.keyword in semfam2.BOUND4 and not semfam2.accepted_by_truncation(m.leaf, m.keyword, m.value):
+        # D10 explains the acceptance of a value that satisfies the bound cut by int(), and no other
+        return "none"
     if m.keyword == "required":
         psch = semgen.resolve(doc, m.leaf.get("properties", {}).get(m.path[-1], {}))
         if m.cause in ("required_nullable_member", "allOf_required_inherited_member"):
@@ -863,6 +869,26 @@ def campaign_nullable(ck: Check, n: int) -> None:
     camp.wall_s = time.time() - t0
 
 
+def campaign_siblings(ck: Check, n: int) -> None:
+    """validation keywords written NEXT TO anyOf / oneOf (not inside the members): they constrain every member of their
+    type wherever it stands in the list — before or after a `null` member, two or three members — in both routings"""
+    camp = ck.campaign("e2e oracle, family: validation keywords as SIBLINGS of anyOf/oneOf × member order (null first / middle / last / absent) × scalar kind × 2-3 inline members × every place: the value violating only the sibling keyword rejected, the keyword reported")
+    t0 = time.time()
+    rng = ck.rng.fork("fam-siblings")
+    off = rng.below(48)
+    for i in range(n):
+        doc, feats, insts, muts = semfam2.sibling_union_doc(rng.fork(str(i)), off + i)
+        for f in feats:
+            camp.hit(f"feature:{f}")
+        camp.hit("mutation:confirmed_sibling_keyword", len(muts))
+        for inst in insts[:2]:
+            muts = muts + [m for m in semgen.mutations(doc, inst) if m.keyword != "type"]
+        for st in STYLES:
+            for r in ("contype", "field") if i % 3 else ROUTINGS:
+                oracle_doc(ck, camp, doc, st, r, insts, muts)
+    camp.wall_s = time.time() - t0
+
+
 def campaign_lattice(ck: Check, n: int) -> None:
     """`required` next to `allOf` naming INHERITED members, over inheritance lattices (several `$ref` bases, depth
     >= 2, diamonds): the member must be required in the generated class — the missing-member mutation rejected,
@@ -968,6 +994,7 @@ def run(ck: Check) -> None:
     campaign_focused(ck)
     campaign_random(ck, 80 if quick else 1200)
     campaign_nullable(ck, 13 if quick else 120)
+    campaign_siblings(ck, 24 if quick else 240)
     campaign_inherit(ck, 24 if quick else 300)
     campaign_lattice(ck, 14 if quick else 150)
     ck.search_hooks.append(search_broken_keyword)
